@@ -442,6 +442,30 @@ fn record_continuation(rec: &mut Recorder, rng: &mut Rng, root: &Path, graph: Gr
     let mut r = Replica::new(LinearStorageProvider::new(mgr), graph);
     let mut snaps = BTreeMap::new();
     let p = DagParams::default();
+    // the first append after the reopen is the head-set append of a commit (it has to grow the
+    // file: `alloc_end == free_offset` after `open`)
+    {
+        use aranya_runtime::{Storage as _, StorageProvider as _};
+        let res = (|| -> Result<(), StorageError> {
+            let st = r.client.provider().get_storage(graph)?;
+            let heads = st.get_heads()?.clone();
+            let fc = st.fact_cache()?;
+            st.commit_heads(heads, fc)
+        })();
+        match res {
+            Ok(()) => rec.count("cont:recommit_ok"),
+            Err(e) => rec.count(&format!("cont:recommit_err:{e:?}")),
+        }
+        let k = commits_done(&log.borrow());
+        if k > 0 {
+            match snapshot(&mut r) {
+                Ok(s) => {
+                    snaps.insert(k, s);
+                }
+                Err(e) => rec.oracle_fail(format!("continuation: live storage unreadable after re-commit: {e}")),
+            }
+        }
+    }
     for nonce in 0..actions {
         let body = gen_body(rng, &p);
         let act = KAction {
@@ -635,6 +659,21 @@ fn gen_chis(rng: &mut Rng, sim: &Sim, budget: usize) -> Vec<Vec<String>> {
     }
     let all = |s: &str| vec![s.to_string(); m];
     out.push(all("1"));
+    // always: each root-area write lost / cut after 8 bytes while everything else is kept (a root
+    // record whose prefix or body did not make it), never sampled away
+    for (i, (off, b)) in sim.pending.iter().enumerate() {
+        if *off < FREE_START {
+            let mut v = all("1");
+            v[i] = "0".into();
+            out.push(v);
+            if b.len() > 8 {
+                let mut v = all("1");
+                v[i] = "p8".into();
+                out.push(v);
+            }
+        }
+    }
+    let must = out.len();
     // each root-area write torn at each 8-byte boundary, the other writes kept / lost
     for (i, (off, b)) in sim.pending.iter().enumerate() {
         if *off < FREE_START {
@@ -698,13 +737,14 @@ fn gen_chis(rng: &mut Rng, sim: &Sim, budget: usize) -> Vec<Vec<String>> {
     // dedupe, keep order; then cut to budget keeping the systematic ones first
     let mut seen = BTreeSet::new();
     out.retain(|v| seen.insert(v.join(",")));
-    let budget = budget.max(2);
+    let must = must.min(out.len());
+    let budget = budget.max(must);
     if out.len() > budget {
-        // keep all-lost and all-kept, sample the rest (so that small budgets still rotate through
-        // the systematic tears over the crash points of a run)
-        let mut rest = out.split_off(2);
+        // keep the mandatory ones, sample the rest (so that small budgets still rotate through the
+        // systematic tears over the crash points of a run)
+        let mut rest = out.split_off(must);
         rng.shuffle(&mut rest);
-        rest.truncate(budget - 2);
+        rest.truncate(budget - must);
         out.extend(rest);
     }
     out
@@ -737,7 +777,13 @@ fn explore(rec: &mut Recorder, rng: &mut Rng, case: &Case, root: &Path, per_poin
             point += 1;
             // always look at the states around a root write; stride over the others
             let near_root = s.pending.iter().any(|(o, _)| *o < FREE_START);
-            if !near_root && point % point_stride != 0 {
+            // the state right after a commit returned ("synced prefix only" with χ = all lost)
+            let after_commit = (k == 0 && ci > 0 && matches!(case.calls[ci - 1].hi, Hi::Commit(..)))
+                || (k == m && matches!(call.hi, Hi::Commit(..)));
+            if after_commit {
+                rec.count("crash_points:right_after_commit");
+            }
+            if !near_root && !after_commit && point % point_stride != 0 {
                 continue;
             }
             rec.count("crash_points");
@@ -997,18 +1043,30 @@ fn main() {
         let commit_idx: Vec<usize> =
             case.calls.iter().enumerate().filter(|(_, c)| matches!(c.hi, Hi::Commit(..))).map(|(i, _)| i).collect();
         let mut picks: Vec<(usize, usize, Vec<String>)> = vec![];
+        // after >= 3 completed commits: the root write of the next commit is torn (prefix kept,
+        // body cut), once for a commit that writes slot B and once for one that writes slot A;
+        // reopen, commit, crash again
+        let mut torn = 0;
+        for (j, &ci) in commit_idx.iter().enumerate() {
+            if j >= 3 && torn < 2 {
+                let m = case.calls[ci].ops.len();
+                picks.push((ci, m - 1, vec!["1".to_string(), "p9".to_string()]));
+                rec.count(if case.calls[ci].before.map(|b| b.5) == Some(4096) { "cont:torn_slot_A" } else { "cont:torn_slot_B" });
+                torn += 1;
+            }
+        }
         if let Some(&ci) = commit_idx.get(commit_idx.len() / 2) {
             let m = case.calls[ci].ops.len();
             picks.push((ci, m - 1, vec!["1".to_string(); 2]));
             if deep {
-                picks.push((ci, m - 1, vec!["1".to_string(), "p9".to_string()]));
+                picks.push((ci, m - 2, vec!["p3".to_string()]));
             }
         }
         if let Some(ci) = (0..case.calls.len()).rev().find(|&i| matches!(case.calls[i].hi, Hi::Append(..))) {
             picks.push((ci, case.calls[ci].ops.len(), vec![]));
         }
-        if !deep {
-            picks.truncate(if n == 0 { 0 } else { 2 });
+        if !deep && n == 0 {
+            picks.clear();
         }
         for (pi, (ci, k, chi)) in picks.into_iter().enumerate() {
             let Some(base) = make_base(&root, &case, ci, k, &chi) else {
